@@ -122,7 +122,7 @@ def confirm_neutral(name: str, src: str) -> int:
         os.makedirs(os.path.join(wt, "out"), exist_ok=True)
         rc0 = 0
         companions = [f for f in os.listdir(src) if f not in ("patch.diff", "meta.json") and os.path.isfile(os.path.join(src, f))
-                      and os.path.getsize(os.path.join(src, f)) < 4_000_000]
+                      and os.path.getsize(os.path.join(src, f)) < 40_000_000]
         for f in companions:
             shutil.copy(os.path.join(src, f), os.path.join(wt, "out", f))
         if os.path.isfile(equiv):
@@ -147,7 +147,13 @@ def confirm_neutral(name: str, src: str) -> int:
         os.makedirs(dest, exist_ok=True)
         shutil.copy(patch, os.path.join(dest, "patch.diff"))
         for f in companions:
-            shutil.copy(os.path.join(src, f), os.path.join(dest, f))
+            if os.path.getsize(os.path.join(src, f)) > 1_000_000:
+                # large recorded-output tables are kept compressed (gunzip next to equiv_test.py to re-run it)
+                import gzip
+                with open(os.path.join(src, f), "rb") as fi, gzip.open(os.path.join(dest, f + ".gz"), "wb", 9) as fo:
+                    shutil.copyfileobj(fi, fo)
+            else:
+                shutil.copy(os.path.join(src, f), os.path.join(dest, f))
         meta.update({"name": name, "kind": "neutral-refactor",
                      "confirmed": {"test_suite_with_change": suite_line, "equiv_tests_pass_on_both": True},
                      "checks_reporting_violation": alarms, "checks_analysis_error": errors,
@@ -208,7 +214,41 @@ def rerun() -> int:
     return 1 if bad else 0
 
 
+def table() -> int:
+    """Markdown table of the kept changes (for DESIGN.md section 9)."""
+    root = os.path.join(VERIF, "seeded")
+    rows, neutral = [], []
+    for name in sorted(os.listdir(root)):
+        mp = os.path.join(root, name, "meta.json")
+        if not os.path.isfile(mp):
+            continue
+        m = json.load(open(mp))
+        caught = m.get("checks_reporting_violation", [])
+        errs = m.get("checks_analysis_error", [])
+        if m.get("kind") == "neutral-refactor":
+            neutral.append(f"| {name} | {(m.get('scope') or '')[:110]} | {len(m.get('edits', []))} | "
+                           f"{', '.join(caught) or 'none'} | {', '.join(errs) or 'none'} |")
+            continue
+        tgt = m.get("property", "?")
+        first = ""
+        if tgt in m.get("reports", {}) and m["reports"][tgt]:
+            r = m["reports"][tgt][0]
+            first = r.split("rule=")[1].split(" ")[0] if "rule=" in r else ""
+        verdict = "caught" if tgt in caught else ("exit 2 (undecidable form)" if tgt in errs else "MISSED")
+        summ = " ".join((m.get("summary") or "").split())[:150]
+        rows.append(f"| {name} | {tgt} | {summ} | {verdict}{' by ' + tgt + '/' + first if first else ''} | "
+                    f"{', '.join(c for c in caught if c != tgt) or '-'} |")
+    print("| change | target | what it does | target check | other checks reporting |\n|---|---|---|---|---|")
+    print("\n".join(rows))
+    print()
+    print("| refactoring | scope | edits | false alarms | analysis errors |\n|---|---|---|---|---|")
+    print("\n".join(neutral))
+    return 0
+
+
 if __name__ == "__main__":
+    if len(sys.argv) >= 2 and sys.argv[1] == "table":
+        sys.exit(table())
     if len(sys.argv) >= 4 and sys.argv[1] == "confirm":
         sys.exit(confirm(sys.argv[2], sys.argv[3]))
     if len(sys.argv) >= 4 and sys.argv[1] == "confirm-neutral":
